@@ -1,5 +1,7 @@
 import OrdModel.Proofs.IndexSatsTx
 import OrdModel.Proofs.IndexSatsChain
+import OrdModel.Proofs.IndexLiftSatBipChain
+import OrdModel.Proofs.IndexSatsWitness
 /-!
 # C01 — sat ranges follow the ordinal-theory first-in-first-out assignment
 
@@ -114,7 +116,114 @@ theorem c01_subsidy_first_ordinal (h : Nat) :
     subsidy h = Bip.subsidy h ∧ startingSat h = Bip.firstOrdinal h :=
   ⟨subsidy_eq_bip h, (firstOrdinal_eq_startingSat h).symm⟩
 
+/-! ## One block (Proofs/IndexLiftSat*.lean)
+
+`satProj u` is the sat-only projection of the UTXO table (outpoint ↦ its ordinals, `den` of the
+entry's ranges), `btxOf tx` what the BIP reads of a transaction, `satsAt m op` the ordinals at an
+outpoint (`[]` if there is none).  `Bip.assignBlock height coinbase txs m` is the BIP's
+`assign_ordinals(block)` on explicit ordinal lists: the coinbase's ordinals are
+`[first_ordinal(h), first_ordinal(h) + subsidy(h))` followed by every transaction's leftover in
+block order, spent outputs leave `m` (`gather`), created ones are written with `AL.set` (`place`),
+and what the coinbase does not claim is returned as the block's unclaimed ordinals.
+
+Hypotheses: the table is a finite map (`hN`; true in every reachable state,
+`c01_reachable_block_matches_bip`), no txid is the all-zero hash (those outpoints are ord's
+special ones), the block has a coinbase, and `NoShadow`: a same-block spend does not also name an
+output that was already in the table under the same outpoint (non-coinbase duplicate txid spent
+again in the same block — there the updater, which removes an input found in the cache from the
+cache only, lets the old table entry resurface; notes/C01.md).  Duplicate *coinbases* are
+covered (`c01_duplicate_coinbase_displaces`). -/
+
+/-- **Block level**: the sat-only projection of `applyBlock` (every configuration with the sat
+index on: inscriptions, runes, addresses on or off) is `Bip.assignBlock`: every non-special
+outpoint holds exactly the ordinals the BIP assigns (and exists iff the BIP has it), and the
+block's unclaimed ordinals are appended to the null outpoint. -/
+theorem c01_block_matches_bip (cfg : Cfg) (hs : cfg.indexSats = true) (st : State) (blk : Block)
+    (cbtx : Tx) (rest : List Tx) (hb : blk.txs = cbtx :: rest)
+    (hN : (AL.keys st.utxo).Nodup) (hz : ∀ tx ∈ blk.txs, tx.txid ≠ 0) (hsh : NoShadow st.utxo blk)
+    (st' : State) (evs : List Event) (h : applyBlock cfg st blk = .ok (st', evs)) :
+    ∃ m' unclaimed,
+      Bip.assignBlock blk.height (btxOf cbtx) (rest.map btxOf) (satProj st.utxo) = some (m', unclaimed) ∧
+      (∀ op, op.isSpecial = false → AL.get (satProj st'.utxo) op = AL.get m' op) ∧
+      satsAt (satProj st'.utxo) OutPoint.null = satsAt m' OutPoint.null ++ unclaimed ∧
+      satsAt (satProj st'.utxo) OutPoint.unbound = satsAt m' OutPoint.unbound :=
+  applyBlock_bip cfg hs st blk cbtx rest hb hN hz hsh st' evs h
+
+/-- … in particular after every prefix of every chain the indexer accepts: the next block is
+indexed as the BIP prescribes (`hN` discharged by reachability). -/
+theorem c01_reachable_block_matches_bip (cfg : Cfg) (hs : cfg.indexSats = true) (chain : List Block)
+    (st : State) (evs0 : List Event) (hr : run cfg chain = .ok (st, evs0)) (blk : Block)
+    (cbtx : Tx) (rest : List Tx) (hb : blk.txs = cbtx :: rest)
+    (hz : ∀ tx ∈ blk.txs, tx.txid ≠ 0) (hsh : NoShadow st.utxo blk)
+    (st' : State) (evs : List Event) (h : applyBlock cfg st blk = .ok (st', evs)) :
+    ∃ m' unclaimed,
+      Bip.assignBlock blk.height (btxOf cbtx) (rest.map btxOf) (satProj st.utxo) = some (m', unclaimed) ∧
+      (∀ op, op.isSpecial = false → AL.get (satProj st'.utxo) op = AL.get m' op) ∧
+      satsAt (satProj st'.utxo) OutPoint.null = satsAt m' OutPoint.null ++ unclaimed ∧
+      satsAt (satProj st'.utxo) OutPoint.unbound = satsAt m' OutPoint.unbound :=
+  applyBlock_bip cfg hs st blk cbtx rest hb (reachable_keys_nodup cfg hs chain st evs0 hr) hz hsh st' evs h
+
+/-- `NoShadow` holds whenever no transaction of the block other than the coinbase reuses the
+txid of an unspent output. -/
+theorem c01_no_shadow_of_fresh_txids (tbl : List (OutPoint × UtxoEntry)) (blk : Block)
+    (h : FreshTxids tbl blk) : NoShadow tbl blk := noShadow_of_fresh h
+
+/-- **Displacement clause**, specification side: `output.ordinals = …` on an outpoint that
+already exists (duplicate txid) replaces what was there; every other outpoint is untouched. -/
+theorem c01_place_overwrites (txid : Txid) (os : List Bip.Ordinals) (m : Bip.Outs) :
+    (∀ k, k < os.length → AL.get (Bip.place txid os 0 m) ⟨txid, k⟩ = os[k]?) ∧
+    (∀ op, op.txid ≠ txid → AL.get (Bip.place txid os 0 m) op = AL.get m op) :=
+  ⟨fun k hk => by simpa using get_place_self txid os 0 m k hk,
+   fun op h => get_place_other txid os 0 m op (Or.inl h)⟩
+
+/-- **Displacement clause**, implementation side, for the coinbase (the historical case: blocks
+91842 / 91880): after the block, output `k` of the coinbase holds exactly the ordinals the BIP
+assigns to it — whatever the table held under that outpoint before (an unspent output of an
+earlier transaction with the same txid) is overwritten, and the sats in it are gone. -/
+theorem c01_duplicate_coinbase_displaces (cfg : Cfg) (hs : cfg.indexSats = true) (st : State) (blk : Block)
+    (cbtx : Tx) (rest : List Tx) (hb : blk.txs = cbtx :: rest)
+    (hN : (AL.keys st.utxo).Nodup) (hz : ∀ tx ∈ blk.txs, tx.txid ≠ 0) (hsh : NoShadow st.utxo blk)
+    (st' : State) (evs : List Event) (h : applyBlock cfg st blk = .ok (st', evs)) :
+    ∃ m1 cbOrds,
+      Bip.assignTxs (rest.map btxOf) (satProj st.utxo)
+        (List.range' (Bip.firstOrdinal blk.height) (Bip.subsidy blk.height)) = some (m1, cbOrds) ∧
+      ∀ k, k < cbtx.outputs.length →
+        AL.get (satProj st'.utxo) ⟨cbtx.txid, k⟩ =
+          (Bip.assignOutputs (cbtx.outputs.map (·.value)) cbOrds).1[k]? := by
+  obtain ⟨m', u, ha, h2, -, -⟩ := applyBlock_bip cfg hs st blk cbtx rest hb hN hz hsh st' evs h
+  simp only [Bip.assignBlock] at ha
+  have hsub : Bip.firstOrdinal blk.height + Bip.subsidy blk.height - Bip.firstOrdinal blk.height =
+      Bip.subsidy blk.height := by omega
+  rw [hsub] at ha
+  split at ha
+  · cases ha
+  · rename_i m1 cb hat
+    simp only [Option.some.injEq, Prod.mk.injEq] at ha
+    obtain ⟨rfl, -⟩ := ha
+    refine ⟨m1, cb, hat, fun k hk => ?_⟩
+    have hne : (⟨cbtx.txid, k⟩ : OutPoint).isSpecial = false :=
+      isSpecial_false_of_txid (hz cbtx (by simp [hb]))
+    rw [h2 _ hne]
+    have hlen : k < (Bip.assignOutputs (btxOf cbtx).values cb).1.length := by
+      rw [assignOutputs_length]; simpa [btxOf] using hk
+    have := get_place_self (btxOf cbtx).txid _ 0 m1 k hlen
+    simpa [btxOf] using this
+
 /-! ## Non-vacuity -/
+
+example : NoShadow [] ⟨1, 0, 101, 0, [coinbaseTx 7 5000000000]⟩ := by
+  intro tx htx; simp at htx
+example : (AL.keys ({} : State).utxo).Nodup := by simp [AL.keys]
+set_option maxRecDepth 100000 in
+/-- the duplicate-coinbase chain (same txid 7 in blocks 1 and 2) is accepted by the indexer, its
+txids are non-zero, every block has a coinbase and nothing is spent: all hypotheses of
+`c01_reachable_block_matches_bip` / `c01_duplicate_coinbase_displaces` hold on it -/
+example : (stateAfter satsOnlyCfg dupCoinbaseChain).isSome = true ∧
+    (∀ b ∈ dupCoinbaseChain, ∀ tx ∈ b.txs, tx.txid ≠ 0 ∧ b.txs.drop 1 = []) := by decide
+example : Bip.place 7 (Bip.assignOutputs [2, 1] [5, 6, 7, 8]).1 0 [(⟨7, 0⟩, [99])] =
+    [(⟨7, 0⟩, [5, 6]), (⟨7, 1⟩, [7])] := by
+  simp [Bip.assignOutputs, Bip.place, AL.set]
+
 
 example : fillOutput [(0, 10), (20, 30)] 15 0 = some ⟨[(0, 10), (20, 25)], [(25, 30)], [(0, 0)]⟩ := by
   simp [fillOutput, satRare, satThird, satEpoch, satEpochAux, epochStartingSat, epochSubsidy]
